@@ -150,9 +150,6 @@ std::size_t CDNS::QueryResponseSignature::write(CdnsEncoder& enc)
                          + !!query_arcount + !!query_edns_version + !!query_udp_size + !!query_opt_rdata_index
                          + !!response_rcode;
 
-    if (fields == 0)
-        return 0;
-
     std::size_t written = 0;
 
     // Start Query Response Signature map
@@ -546,9 +543,6 @@ std::size_t CDNS::MalformedMessageData::write(CdnsEncoder& enc)
 {
     std::size_t fields = !!server_address_index + !!server_port + !!mm_transport_flags + !!mm_payload;
 
-    if (fields == 0)
-        return 0;
-
     std::size_t written = 0;
 
     // Start Malformed message data map
@@ -640,9 +634,6 @@ std::size_t CDNS::ResponseProcessingData::write(CdnsEncoder& enc)
 {
     std::size_t fields = !!bailiwick_index + !!processing_flags;
 
-    if (fields == 0)
-        return 0;
-
     std::size_t written = 0;
 
     // Start Response processing data map
@@ -719,9 +710,6 @@ std::string CDNS::QueryResponseExtended::string()
 std::size_t CDNS::QueryResponseExtended::write(CdnsEncoder& enc)
 {
     std::size_t fields = !!question_index + !!answer_index + !!authority_index + !!additional_index;
-
-    if (fields == 0)
-        return 0;
 
     std::size_t written = 0;
 
@@ -896,9 +884,6 @@ std::size_t CDNS::BlockStatistics::write(CdnsEncoder& enc)
     std::size_t fields = !!processed_messages + !!qr_data_items + !!unmatched_queries + !!unmatched_responses
                          + !!discarded_opcode + !!malformed_items;
 
-    if (fields == 0)
-        return 0;
-
     std::size_t written = 0;
 
     // Start Block statistics map
@@ -1058,9 +1043,6 @@ std::size_t CDNS::QueryResponse::write(CdnsEncoder& enc, const Timestamp& earlie
                          + !!qr_signature_index + !!client_hoplimit + !!response_delay + !! query_name_index
                          + !!query_size + !!response_size + !!response_processing_data + !!query_extended
                          + !!response_extended + !!asn + !!country_code + !!round_trip_time;
-
-    if (fields == 0)
-        return 0;
 
     std::size_t written = 0;
 
@@ -1392,9 +1374,6 @@ std::size_t CDNS::MalformedMessage::write(CdnsEncoder& enc, const Timestamp& ear
 {
     std::size_t fields = !!time_offset + !!client_address_index + !!client_port + !!message_data_index;
 
-    if (fields == 0)
-        return 0;
-
     std::size_t written = 0;
 
     // Start Malformed message map
@@ -1488,9 +1467,6 @@ void CDNS::StringItem::reset()
 
 std::size_t CDNS::IndexListItem::write(CdnsEncoder& enc)
 {
-    if (list.size() == 0)
-        return 0;
-
     std::size_t written = 0;
 
     written += enc.write_array_start(list.size());
